@@ -281,7 +281,16 @@ class LangServer:
                 tmp_list = candidate.FQSN.split("::")
                 tmp_out["containerName"] = tmp_list[0]
             matching_symbols.append(tmp_out)
-        return sorted(matching_symbols, key=lambda k: k["name"])
+        # Symbols of the same name in an order that does not depend on the order in
+        # which the files were indexed
+        return sorted(
+            matching_symbols,
+            key=lambda k: (
+                k["name"],
+                k["location"]["uri"],
+                k["location"]["range"]["start"]["line"],
+            ),
+        )
 
     def serve_document_symbols(self, request: dict):
         def map_types(type, in_class: bool = False):
